@@ -189,7 +189,10 @@ class StatusChain:
                 self.rep.violation(f'{fi.module.name}:{fi.qualname}: bare return', fi.loc(r), 'status producer returns None')
                 continue
             ok, v = try_fold(r.value)
-            if ok:
+            if ok and v is None:
+                self.rep.violation(f'{fi.module.name}:{fi.qualname}: return None', fi.loc(r), 'the status producer returns None: `exitcode |= None` raises TypeError, and sys.exit(None) means success')
+                continue
+            if ok and isinstance(v, (int, bool)):
                 lits.append((r, v))
             self.check_expr(fi, r.value, r)
         if lits:
@@ -214,14 +217,28 @@ class StatusChain:
         for r, v in lits:
             facts = facts_at(cfg, IN, pm, r)
             key = f'{fi.module.name}:{fi.qualname}: return {v!r} iff errors'
+            nonempty = (ev, True) in facts or (f'not {ev}', False) in facts or (f'len({ev}) > 0', True) in facts
+            empty = (ev, False) in facts or (f'not {ev}', True) in facts or (f'len({ev}) == 0', True) in facts
+            # does any condition on the way mention the report at all?  If none does, the literal is returned whatever the report says.
+            mentions = any(ev in {x.id for x in ast.walk(ast.parse(f, mode='eval')) if isinstance(x, ast.Name)} for f, _ in facts)
             if int(v) != 0:
-                good = (ev, True) in facts or (f'not {ev}', False) in facts or (f'len({ev}) > 0', True) in facts
-                rep.add(key, fi.loc(r), 'ok' if good else 'undecided',
-                        '' if good else f'non-zero status is not conditional on the error report {ev} being non-empty')
+                if nonempty:
+                    rep.ok(key, fi.loc(r))
+                elif empty:
+                    rep.violation(key, fi.loc(r), f'the non-zero status is returned exactly when the error report {ev} is EMPTY: a compliant graph fails --check and a non-compliant one passes')
+                elif not mentions:
+                    rep.violation(key, fi.loc(r), f'the non-zero status is returned without any test of the error report {ev}: --check fails for compliant graphs too')
+                else:
+                    rep.undecided(key, fi.loc(r), f'non-zero status is not conditional on the error report {ev} being non-empty')
             else:
-                good = (ev, False) in facts or (f'not {ev}', True) in facts or (f'len({ev}) == 0', True) in facts
-                rep.add(key, fi.loc(r), 'ok' if good else 'undecided',
-                        '' if good else f'zero status can be returned although the error report {ev} is non-empty')
+                if empty:
+                    rep.ok(key, fi.loc(r))
+                elif nonempty:
+                    rep.violation(key, fi.loc(r), f'status 0 is returned exactly when the error report {ev} is NOT empty: the graph has errors (they are even written to its metadata) and --check exits 0')
+                elif not mentions:
+                    rep.violation(key, fi.loc(r), f'status 0 is returned without any test of the error report {ev}: a graph with errors does not make --check fail')
+                else:
+                    rep.undecided(key, fi.loc(r), f'zero status can be returned although the error report {ev} is non-empty')
 
 
 @rule('R7', '--check: the exit status accumulates every failure, over graphs and over files, up to sys.exit')
@@ -266,7 +283,9 @@ def r7(ctx: Ctx) -> RuleReport:
             others = sorted((f, pol) for f, pol in fx if any(isinstance(x, ast.Name) and x.id in params - {'check'} for x in ast.walk(ast.parse(f, mode='eval'))))
             has = ('check', True) in fx
             key = 'penman.__main__:process: the model check runs for every graph exactly when --check is given'
-            if others:
+            if ('check', False) in fx and not has:
+                rep.violation(key, pr.loc(call), 'the model check runs exactly when --check is NOT given: with --check nothing is checked and the exit status stays 0')
+            elif others:
                 rep.violation(key, pr.loc(call), f'_check is also conditional on {others}: with that option combination --check checks nothing and '
                               f'the exit status stays 0 whatever the graphs contain')
             else:
@@ -704,6 +723,11 @@ def r42(ctx: Ctx) -> RuleReport:
         good = isinstance(f, ast.Name) and f.id == out_param
         rep.add(f'penman.__main__:process: {norm(c)} goes to the output stream', fi.loc(c), 'ok' if good else 'undecided',
                 '' if good else 'graph text is not written to the `out` argument')
+    if not content and not [c for c, ts in ctx.cg.calls_in(fi) if any(x is c for x in ast.walk(main_loop)) and isinstance(c.func, ast.Attribute) and c.func.attr in ('write', 'writelines')] \
+            and not [c for c, ts in ctx.cg.calls_in(fi) if any(x is c for x in ast.walk(main_loop)) and any(isinstance(a, ast.Name) and a.id == (fi.positional[2] if len(fi.positional) > 2 else 'out') for a in c.args)]:
+        rep.violation('penman.__main__:process: every iteration prints its graph', fi.loc(main_loop), 'nothing in the loop over the parsed trees writes to the output stream (no print with '
+                      'content, no write, the stream is passed to no call): the graphs are processed and dropped')
+        return rep
     if len(content) != 1:
         rep.undecided('penman.__main__:process: exactly one content print in the loop', fi.loc(main_loop),
                       f'{len(content)} content prints')
@@ -753,6 +777,33 @@ def r42(ctx: Ctx) -> RuleReport:
     facts = facts_at(cfg, IN, pm, s)
     flag = next((f for f, pol in facts if not pol and f.isidentifier()), None)
     ok_flag = False
+    kq = 'penman.__main__:process: separator printed before every graph but the first'
+    wrong = next((f for f, pol in facts if pol and f.isidentifier() and f not in ('True',)), None)
+    if flag is None and wrong is not None:
+        # the separator stands under `flag` being TRUE: is that flag a first-iteration flag (True before the loop, False inside)?
+        vals_ = [v for v in ctx.cg.local_assigns(fi).get(wrong, []) if isinstance(v, ast.AST)]
+        outside = [try_fold(n.value)[1] for n in walk_local(fi.node) if isinstance(n, ast.Assign) and isinstance(n.targets[0], ast.Name) and n.targets[0].id == wrong
+                   and not any(x is n for x in ast.walk(main_loop))]
+        inside_ = [try_fold(n.value)[1] for n in walk_local(fi.node) if isinstance(n, ast.Assign) and isinstance(n.targets[0], ast.Name) and n.targets[0].id == wrong
+                   and any(x is n for x in ast.walk(main_loop))]
+        if outside == [True] and inside_ == [False] and len(vals_) == 2:
+            rep.violation(kq, fi.loc(s), f'the blank line is printed when `{wrong}` is true, i.e. before the FIRST graph only: the output starts with an empty line and the graphs that follow '
+                          f'are not separated')
+            return rep
+    if flag:
+        outside = [try_fold(n.value)[1] for n in walk_local(fi.node) if isinstance(n, ast.Assign) and isinstance(n.targets[0], ast.Name) and n.targets[0].id == flag
+                   and not any(x is n for x in ast.walk(main_loop))]
+        inside_ = [(n, try_fold(n.value)[1]) for n in walk_local(fi.node) if isinstance(n, ast.Assign) and isinstance(n.targets[0], ast.Name) and n.targets[0].id == flag
+                   and any(x is n for x in ast.walk(main_loop))]
+        if outside == [False] and all(v is False for _, v in inside_):
+            rep.violation(kq, fi.loc(s), f'`{flag}` is False from the start: a blank line is printed before the first graph as well (the output no longer equals what dumps() returns)')
+            return rep
+        if outside == [True] and not inside_:
+            rep.violation(kq, fi.loc(s), f'`{flag}` is set to True before the loop and never cleared: no blank line is ever printed, the graphs of a stream are written without separation')
+            return rep
+        if outside == [True] and inside_ and all(v is True for _, v in inside_):
+            rep.violation(kq, fi.loc(s), f'`{flag}` is only ever set to True: no blank line is ever printed between graphs')
+            return rep
     if flag:
         vals = ctx.cg.local_assigns(fi).get(flag, [])
         consts = [try_fold(v)[1] for v in vals if v is not None]
@@ -1394,12 +1445,18 @@ def _ancestors_of(pm, n):
 @rule('R115', 'the model check runs before anything is derived from the graph for output: what _check writes into the metadata is part of what is printed')
 def r115(ctx: Ctx) -> RuleReport:
     rep = RuleReport('R115', r115.title, floor=1)
-    fi = ctx.repo.func('penman.__main__', 'process')
+    from ..resolve import local_callees
+    pr = ctx.repo.func('penman.__main__', 'process')
+    fi, checks = pr, []
+    for f in local_callees(ctx, pr, depth=2):
+        cs = [c for c, ts in ctx.cg.calls_in(f) if any(t.kind == 'func' and t.func.qualname == '_check' for t in ts)]
+        if cs and f.qualname != '_check':
+            fi, checks = f, cs
+            break
     cfg = CFG(fi.node)
     pm = ctx.repo.parent_map(fi.node)
-    checks = [c for c, ts in ctx.cg.calls_in(fi) if any(t.kind == 'func' and t.func.qualname == '_check' for t in ts)]
     if not checks:
-        rep.undecided(f'{fi.fq}: _check is called', fi.loc(), 'no call of _check in process (a helper may make it)')
+        rep.undecided(f'{pr.fq}: _check is called', pr.loc(), 'no call of _check in process or the functions it calls')
         return rep
     for ck in checks:
         if not ck.args or not isinstance(ck.args[0], ast.Name):
